@@ -41,8 +41,8 @@ PROPS = {
     ),
     "C18": dict(
         rule="real RingBuffer on POSIX shared memory (writer handle + reader handle), buffer sizes {2,3,4,5,7,8,16,17,64,100,255,256} and "
-             "random 2..4096, plus 2% rings larger than the packet size recorded in the buffer description (8193..24581, chunk sizes = that packet size and its neighbours), histories of 1..40 ops Write/Read/ReadMultipleOf/ReadAll/DiscardStride with exact-fill, over-fill, exact-empty, "
-             "negative and over-capacity read sizes; 8% of histories may contain rewinding discards (the known finding) and 6% are directed: writes that do not fit, "
+             "random 2..4096, the reader handle closed and re-opened at random points and right after exactly-filling writes (op O: nothing may change), plus 3% rings larger than the packet size recorded in the buffer description (8193..24581, chunk sizes = that packet size and its neighbours), histories of 1..40 ops Write/Read/ReadMultipleOf/ReadAll/DiscardStride with exact-fill, over-fill, exact-empty, "
+             "negative and over-capacity read sizes; 8% of histories may contain rewinding discards (the known finding) and 8% are directed: writes of more than half the ring each followed by a read of everything, "
              "reads past a stride boundary, a discard back onto the boundary, then a write of the true room plus 1..5 bytes and a read of everything — after a "
              "coherent backwards move (fewer than cap bytes re-exposed, theorem discard_spec_coherent) the oracle keeps judging from the new position, so a "
              "different failure later in the history is still reported under its own signature; a panic inside an "
